@@ -179,9 +179,34 @@ def check_diff(case):
 
 @st.composite
 def coh_cases(draw):
-    rec = draw(gen.frame_recipe(max_rows=5, max_cols=6, kinds=KINDS,
+    grown = draw(st.integers(0, 2)) == 2   # one case in three: the same frame reached by growing a FrameGO block by block
+    # (grown frames draw their blocks from one dtype kind half of the time: narrow before wide, coarse before fine)
+    kinds = draw(st.sampled_from([('<U1', '<U4'), KINDS, ('M8[D]', 'M8[s]'), KINDS, ('uint8', 'int64'), KINDS])) if grown else KINDS
+    rec = draw(gen.frame_recipe(max_rows=5, max_cols=6, kinds=kinds,
                                 index_kinds=('auto', 'int', 'str', 'date', 'ih'), column_kinds=('auto', 'int', 'str', 'ih')))
-    return {'rec': rec}
+    return {'rec': rec, 'grown': grown}
+
+
+def _grown_frame(rec):
+    """A FrameGO holding the recipe's first block, grown by the remaining blocks one at a time (setitem for 1-D blocks, extend
+    for 2-D ones), with nothing read in between: every read route must show the cells of the frame built in one go."""
+    blks = [gen.freeze(b) for b in rec['blocks']]
+    n, m = len(rec['index']['labels']), len(rec['columns']['labels'])
+    cix = gen.build_index(rec['columns'], for_frame=True)
+    labels = list(cix) if cix is not None else list(range(m))
+    w0 = 1 if blks[0].ndim == 1 else blks[0].shape[1]
+    index = gen.build_index(rec['index'], for_frame=True)
+    f = sf.FrameGO(sf.TypeBlocks.from_blocks([blks[0]], shape_reference=(n, w0)), index=index, columns=(labels[:w0] if cix is not None else None),
+                   name=rec.get('name'), own_data=True, own_index=index is not None)
+    pos = w0
+    for b in blks[1:]:
+        w = 1 if b.ndim == 1 else b.shape[1]
+        if b.ndim == 1:
+            f[labels[pos]] = b
+        elif w:
+            f.extend(sf.Frame(b, index=f.index, columns=labels[pos: pos + w]))
+        pos += w
+    return f
 
 
 def _ceq(g, w):
@@ -190,7 +215,8 @@ def _ceq(g, w):
 
 def check_coh(case):
     rec = case['rec']
-    f = gen.build_frame(rec)
+    grown = bool(case.get('grown')) and len(rec['blocks']) >= 2 and rec['columns']['kind'] != 'ih' and all(b.size or b.ndim == 1 for b in rec['blocks'])
+    f = _grown_frame(rec) if grown else gen.build_frame(rec)
     cols = gen.block_columns(rec['blocks'])
     model = [arr_list(c) for c in cols]
     il, cl = [canon(x) for x in rec['index']['labels']], [canon(x) for x in rec['columns']['labels']]
@@ -262,7 +288,7 @@ def check_coh(case):
                 w = model[p][q] if axis == 0 else model[q][p]
                 need(eq(canon(lab2), inner[q]) and _ceq(x, w), 'value', 'to_pairs(%d)[%d][%d]=%r expected (%r,%r)' % (axis, p, q, (lab2, x), inner[q], w))
     kinds = {c.dtype.kind for c in cols}
-    return {'nt': n >= 1 and m >= 2 and len(rec['blocks']) >= 1, 'cls': ['coh:kinds=%d' % len(kinds), 'coh:blocks=%d' % len(rec['blocks'])]}
+    return {'nt': n >= 1 and m >= 2 and len(rec['blocks']) >= 1, 'cls': ['coh:kinds=%d' % len(kinds), 'coh:blocks=%d' % len(rec['blocks']), 'coh:' + ('grown' if grown else 'built')]}
 
 
 MISSING_OPS = ('fillna_dir', 'fillna_sided', 'fillna', 'dropna', 'isna', 'shift', 'roll', 'reduce')
